@@ -109,3 +109,29 @@ theorem dec_enc : ∀ (bs : List UInt8), dec (enc bs) = some bs
       rw [hr] at ih ⊢
       simp only [dec, unalpha_alpha _ h1, unalpha_alpha _ h2, unalpha_alpha _ h3, unalpha_alpha _ h4, ih, e1, e2, e3]
 end B64
+
+namespace B64
+/-- the decoder of Go's `base64.StdEncoding` after CR/LF removal: like `dec`, but non-zero trailing
+    bits in the last quantum are tolerated (Go's non-strict mode) -/
+def decLenient : List UInt8 → Option (List UInt8)
+  | [] => some []
+  | [w, x, y, z] =>
+    match unalpha w, unalpha x with
+    | some p, some q =>
+      if y = pad then
+        if z = pad then some [(p * 4 + q / 16).toUInt8] else none
+      else match unalpha y with
+        | none => none
+        | some r =>
+          if z = pad then some [(p * 4 + q / 16).toUInt8, (q % 16 * 16 + r / 4).toUInt8]
+          else match unalpha z with
+            | none => none
+            | some t => some [(p * 4 + q / 16).toUInt8, (q % 16 * 16 + r / 4).toUInt8, (r % 4 * 64 + t).toUInt8]
+    | _, _ => none
+  | w :: x :: y :: z :: rest@(_ :: _) =>
+    match unalpha w, unalpha x, unalpha y, unalpha z, decLenient rest with
+    | some p, some q, some r, some t, some out =>
+      some ((p * 4 + q / 16).toUInt8 :: (q % 16 * 16 + r / 4).toUInt8 :: (r % 4 * 64 + t).toUInt8 :: out)
+    | _, _, _, _, _ => none
+  | _ => none
+end B64
